@@ -301,7 +301,11 @@ def correspond(pid, tier, backend, gen_args, workdir, stats):
             lines = open(jpath).read().split("\n")
             starts = [i for i, l in enumerate(lines) if l.startswith("scn ")]
             if starts:
-                replay = "\n".join(l for l in lines[starts[-1]:] if l.strip()) + "\nend\n"
+                body = [l for l in lines[starts[-1]:] if l.strip()]
+                if gen_args and gen_args[0] == "genpure" and len(body) > 2:
+                    # pure-function batch: the call that killed the process is the last journalled line
+                    body = [body[0], body[-1]]
+                replay = "\n".join(body) + "\nend\n"
         tail = (out2 if rc2 != 0 else out)[-1500:]
         raise Violation("the implementation crashed or aborted (exit %d) while executing a generated history (%s %s)" % (rc, backend, gen_args),
                         "# the last operation of this scenario kills the process (assertion / abort / signal)\n# " +
